@@ -184,22 +184,22 @@ V("C13", "closure-iterative-silent", "silent", (EXPR, EC_NEW, """    if result i
     return result
 """), "worklist form of the same closure")
 V("C13", "optional-no-bypass", "fire", (OPD + "Optional.py", "start.epsilon_transitions = [nfa.start, accepting]", "start.epsilon_transitions = [nfa.start]"),
-  "Optional(x) == x", "Optional.apply")
+  "Optional(x) == x", "rule=R")
 V("C13", "oneormore-bypass", "fire", (OPD + "OneOrMore.py", "start.epsilon_transitions = [nfa.start]", "start.epsilon_transitions = [nfa.start, accepting]"),
-  "OneOrMore(x) == x*", "OneOrMore.apply")
+  "OneOrMore(x) == x*", "rule=R")
 V("C13", "zeroormore-no-back-edge", "fire", (OPD + "ZeroOrMore.py", "nfa.accepting.epsilon_transitions = [nfa.start, accepting]", "nfa.accepting.epsilon_transitions = [accepting]"),
-  "ZeroOrMore(x) == x?", "ZeroOrMore.apply")
+  "ZeroOrMore(x) == x?", "rule=R")
 V("C13", "concat-swapped", "fire", (OPD + "Concat.py", "        nfa2.accepting.assign(nfa1.start)\n        nfa = NFA(nfa2.start, nfa1.accepting)",
                                     "        nfa1.accepting.assign(nfa2.start)\n        nfa = NFA(nfa1.start, nfa2.accepting)"),
-  "sequence reversed", "Concat.apply")
+  "sequence reversed", "rule=R")
 V("C13", "union-drops-right", "fire", (OPD + "Union.py", "start.epsilon_transitions = [nfa1.start, nfa2.start]", "start.epsilon_transitions = [nfa1.start]"),
-  "Union(x, y) == x", "Union.apply")
+  "Union(x, y) == x", "rule=R")
 V("C13", "union-right-not-accepting", "fire", (OPD + "Union.py", "        nfa2.accepting.epsilon_transitions = [accepting]\n", ""),
-  "right alternative never accepts", "Union.apply")
+  "right alternative never accepts", "rule=R")
 V("C13", "zeroormore-append-silent", "silent", (OPD + "ZeroOrMore.py", "        start.epsilon_transitions = [nfa.start, accepting]\n",
                                                 "        start.epsilon_transitions.append(accepting)\n        start.epsilon_transitions.append(nfa.start)\n"),
   "same edges, built with append in another order")
-V("C13", "sequence-reversed", "fire", (EXPR, "    for item in op_expression:\n", "    for item in reversed(op_expression):\n"), "items applied right to left", "expression_to_nfa/sequence")
+V("C13", "sequence-reversed", "fire", (EXPR, "    for item in op_expression:\n", "    for item in reversed(op_expression):\n"), "items applied right to left", "rule=R")
 V("C13", "keyword-hash-id", "fire", (PRD + "Keyword.py", "        return hash(self.keyword)", "        return hash(id(self))"),
   "equal predicates hash differently: duplicate DFA symbols", "Keyword/hash")
 V("C13", "symbol-eq-any", "fire", (PRD + "Symbol.py", "        if not isinstance(other, Symbol):\n            return False\n        return self.symbol == other.symbol",
@@ -208,10 +208,10 @@ V("C13", "symbol-eq-any", "fire", (PRD + "Symbol.py", "        if not isinstance
 V("C13", "balanced-hash-extra", "fire", (PRD + "Balanced.py", "        return hash((self.left, self.right, self.depth))", "        return hash((self.left, self.right, self.depth, self.satisfied))"),
   "hash reads a field __eq__ ignores", "Balanced/hash-subset")
 V("C13", "dfa-start-no-closure", "fire", (EXPR, "stack = [(start, epsilon_closure(nfa.start))]", "stack = [(start, {nfa.start})]"),
-  "patterns starting with an operator never match", "start-closure")
+  "patterns starting with an operator never match", "rule=R")
 V("C13", "dfa-target-no-closure", "fire", (EXPR, "new_states = epsilon_closure(move(T, predicate))", "new_states = move(T, predicate)"),
-  "epsilon edges after a symbol are lost", "nfa_to_dfa/target")
-V("C13", "move-neq", "fire", (EXPR, "if transition[0] == symbol:", "if transition[0] != symbol:"), "move follows the wrong symbols", "move/selection")
+  "epsilon edges after a symbol are lost", "rule=R")
+V("C13", "move-neq", "fire", (EXPR, "if transition[0] == symbol:", "if transition[0] != symbol:"), "move follows the wrong symbols", "rule=R")
 V("C13", "startswith-accept-before-consume", "fire", (MATCHER, """        next_state = pattern.consume(item)
         if not next_state:
             return None
@@ -226,7 +226,7 @@ V("C13", "startswith-accept-before-consume", "fire", (MATCHER, """        next_s
         if not next_state:
             return None
     return None
-"""), "accepting test before the item is consumed", "starts_with/shape")
+"""), "accepting test before the item is consumed", "starts_with/")
 V("C13", "match-returns-prefix", "fire", (MATCHER, """        next_state = pattern.consume(item)
         if not next_state:
             return None
@@ -242,7 +242,7 @@ V("C13", "match-returns-prefix", "fire", (MATCHER, """        next_state = patte
     if pattern.is_accepting():
         pattern.end = len(pattern.tokens)
         return pattern
-"""), "a matching prefix counts as a full match", "match/shape")
+"""), "a matching prefix counts as a full match", "match/")
 
 # ------------------------------------------------------------------ C14
 SU = "codelimit/common/scope/scope_utils.py"
